@@ -619,3 +619,24 @@ func init() {
 		r.Counters["porcupine_histories_checked"] = r.Transitions
 	})
 }
+
+func init() {
+	// c17stress <scenario> <bound> <maxExec>: explores one scheduled scenario (diagnostics for harness determinism)
+	chk.Children["c17stress"] = func(args []string) int {
+		var si, bound, max int
+		fmt.Sscan(args[0], &si)
+		fmt.Sscan(args[1], &bound)
+		fmt.Sscan(args[2], &max)
+		scs := []c17Scenario{
+			{Updates: []map[string]int{{"A": 2, "B": 1}, {"A": 1, "B": 2}}, Reloads: []string{"A"}, Reads: 2, WaitInit: true},
+			{Updates: []map[string]int{{"A": 2, "B": 1}, {"A": 1}}, Reloads: []string{"A", "AB"}, Reads: 2, WaitInit: true},
+			{Updates: []map[string]int{{"A": 1, "B": 3}, {"A": 2, "B": 1, "C": 1}}, Reloads: []string{"ABC"}, Reads: 2, WaitInit: true},
+			{Updates: []map[string]int{{"B": 2}, {"A": 2, "B": 2}}, Reloads: []string{"B", "A"}, Reads: 1, WaitInit: true},
+		}
+		sc := scs[si%len(scs)]
+		n := 0
+		st := vrt.Explore(bound, max, func(x *vrt.X) { c17Sched(x, sc) }, func(x *vrt.X) bool { n++; return true })
+		fmt.Println("ok executions", st.Executions)
+		return 0
+	}
+}
